@@ -44,11 +44,15 @@ Expected(c) ==
    o1 |-> Ext(c.ical, O(c.f1), D(c)), o2 |-> Ext(c.ical, O(c.f2), D(c)),
    g  |-> Ext(c.ocal, c.g, D(c)), link |-> Ext(c.ocal, c.link, D(c))]
 
+\* the parameters of the GraphQL operation used in the replay
+P1 == [name |-> "arg_val", alias |-> "arg_al", ovr |-> TRUE, req |-> TRUE]
+P2 == [name |-> "plain_arg", alias |-> "", ovr |-> TRUE, req |-> FALSE]
 ASSUME Emit => PrintT(ToJson([header |-> TRUE, tier |-> Tier]))
 
 Init == cfg \in Cfgs /\ phase = "start"
 Name == /\ phase = "start" /\ phase' = "done" /\ UNCHANGED cfg
-        /\ Emit => PrintT(ToJson([cfg |-> [cfg EXCEPT !.f1 = cfg.f1] , o1 |-> O(cfg.f1), o2 |-> O(cfg.f2), expect |-> Expected(cfg)]))
+        /\ Emit => PrintT(ToJson([cfg |-> [cfg EXCEPT !.f1 = cfg.f1] , o1 |-> O(cfg.f1), o2 |-> O(cfg.f2), expect |-> Expected(cfg),
+                                   params |-> [p1 |-> ParamExt(P1, D(cfg)), p2 |-> ParamExt(P2, D(cfg))]]))
 Next == Name
 Spec == Init /\ [][Next]_vars
 
@@ -56,6 +60,7 @@ Spec == Init /\ [][Next]_vars
 OneNameAll ==
   /\ \A f \in {cfg.f1, cfg.f2, O(cfg.f1), O(cfg.f2)} : OneName(cfg.ical, f, D(cfg))
   /\ \A f \in {cfg.g, cfg.link} : OneName(cfg.ocal, f, D(cfg))
+  /\ OneParamName(P1, D(cfg)) /\ OneParamName(P2, D(cfg))
 \* the override = FALSE exemption concerns ONLY the class aliaser
 DynIgnoresOverride ==
   \A f \in {cfg.f1, cfg.f2} : D(cfg) # "id" => Ext(cfg.ical, f, D(cfg)).apps # <<>> /\ Ext(cfg.ical, f, D(cfg)).apps[Len(Ext(cfg.ical, f, D(cfg)).apps)] = D(cfg)
